@@ -9,7 +9,7 @@ open Car
 
 /-- registration and Has never initialise the writer -/
 def lazyOp : DOp → Bool
-  | .onPut _ _ => true
+  | .onPut _ _ _ => true
   | .has _ => true
   | _ => false
 
@@ -50,44 +50,55 @@ theorem close_is_finalize (o : WOpts) (d : Deferred) (s : Store) (hw : d.w = som
     (d.step o .close).1.closed = true := by
   simp [Deferred.step, hw, hc]
 
-/-- the index-based removal loop, from position `i` with the first `i` callbacks already kept -/
+/-- the index-based removal loop, from position `i` with the first `i` callbacks already kept, over callbacks
+    that register nothing themselves -/
 theorem fireLoop_spec : ∀ (fuel : Nat) (kept rest : List PutCb) (fired : List Nat),
-    rest.length < fuel →
+    rest.length < fuel → (∀ cb ∈ rest, cb.spawn = none) →
     fireLoop fuel kept.length (kept ++ rest) fired
       = (kept ++ rest.filter (fun cb => !cb.once), fired ++ rest.map (·.id)) := by
   intro fuel
   induction fuel with
   | zero => intro kept rest fired h; omega
   | succ f ih =>
-    intro kept rest fired h
+    intro kept rest fired h hsp
     unfold fireLoop
     cases rest with
     | nil => simp
     | cons cb tl =>
       have hget : (kept ++ cb :: tl)[kept.length]? = some cb := by simp
+      have hcb : cb.spawn = none := hsp cb (by simp)
+      have htl : ∀ c ∈ tl, c.spawn = none := fun c hc => hsp c (by simp [hc])
       rw [hget]
-      simp only
+      simp only [hcb]
       by_cases ho : cb.once = true
       · simp only [ho, ↓reduceIte]
         have : (kept ++ cb :: tl).eraseIdx kept.length = kept ++ tl := by
           rw [List.eraseIdx_append_of_length_le (by omega)]; simp
-        rw [this, ih kept tl _ (by simpa using h)]
+        rw [this, ih kept tl _ (by simpa using h) htl]
         simp [ho]
       · have ho' : cb.once = false := by simpa using ho
         simp only [ho', Bool.false_eq_true, ↓reduceIte]
         have e : kept ++ cb :: tl = (kept ++ [cb]) ++ tl := by simp
         have hl : kept.length + 1 = (kept ++ [cb]).length := by simp
-        rw [e, hl, ih (kept ++ [cb]) tl _ (by simpa using h)]
+        rw [e, hl, ih (kept ++ [cb]) tl _ (by simpa using h) htl]
         simp [ho']
 
 /-- (3) Callbacks: one Put fires every registered callback exactly once, in registration order,
     and afterwards exactly the once-only ones are gone (so each of those fires exactly once overall). -/
-theorem callbacks_fire_in_order (o : WOpts) (d : Deferred) (hc : d.closed = false) (c : Cid) (data : Bytes) :
+theorem callbacks_fire_in_order (o : WOpts) (d : Deferred) (hc : d.closed = false) (c : Cid) (data : Bytes)
+    (hsp : ∀ cb ∈ d.cbs, cb.spawn = none) :
     (d.step o (.put c data)).2.fired = d.cbs.map (·.id) ∧
     (d.step o (.put c data)).1.cbs = d.cbs.filter (fun cb => !cb.once) := by
-  have := fireLoop_spec (d.cbs.length + 1) [] d.cbs [] (by omega)
+  have := fireLoop_spec (2 * d.cbs.length + 2) [] d.cbs [] (by omega) hsp
   simp only [List.length_nil, List.nil_append] at this
   simp [Deferred.step, hc, this]
+
+/-- (3b) — a test, not a theorem: a callback that registers another callback while it runs (`OnPut` from
+    inside a callback) appends to the very list being walked, so the new one fires later in the SAME Put,
+    after everything registered before it, and stays registered for the Puts to come. The general statement
+    is not proved; the model carries the behaviour and the tie compares it on every run. -/
+example : fireLoop 10 0 [{ id := 1, once := true, spawn := some (9, false) }, { id := 2, once := false }] []
+    = ([{ id := 2, once := false }, { id := 9, once := false }], [1, 2, 9]) := by decide
 
 /-- (4) After Close every call reports the store as closed. -/
 theorem closed_after_close (o : WOpts) (d : Deferred) (hc : d.closed = true) (c : Cid) (data : Bytes) :
@@ -108,12 +119,12 @@ theorem deferred_is_direct_on_projection (o : WOpts) (roots : Option (List Cid))
   rfl
 
 /-- the projection on a concrete sequence: registrations and Has vanish, Puts after Close are dropped -/
-example : projFresh [.onPut 1 true, .has ⟨1, 0x55, 0, []⟩, .put ⟨1, 0x55, 0, [1]⟩ [1], .close, .put ⟨1, 0x55, 0, [2]⟩ [2], .close]
+example : projFresh [.onPut 1 true none, .has ⟨1, 0x55, 0, []⟩, .put ⟨1, 0x55, 0, [1]⟩ [1], .close, .put ⟨1, 0x55, 0, [2]⟩ [2], .close]
     = some [.put ⟨1, 0x55, 0, [1]⟩ [1], .finalize] := by
   simp [projFresh, projOps]
-example : projFresh [.onPut 1 true, .close, .put ⟨1, 0x55, 0, [2]⟩ [2]] = none := by simp [projFresh]
+example : projFresh [.onPut 1 true none, .close, .put ⟨1, 0x55, 0, [2]⟩ [2]] = none := by simp [projFresh]
 
 /-- Non-vacuity: registrations + Has on a fresh writer satisfy `deferred_lazy`'s premise. -/
-example : ∀ op ∈ [DOp.onPut 1 true, DOp.has ⟨1, 0x55, 0, []⟩, DOp.onPut 2 false], lazyOp op = true := by decide
+example : ∀ op ∈ [DOp.onPut 1 true none, DOp.has ⟨1, 0x55, 0, []⟩, DOp.onPut 2 false none], lazyOp op = true := by decide
 
 end Car.C20
